@@ -184,6 +184,9 @@ pub enum ParseErrorKind {
     #[error("Overflow in number literal")]
     OverflowInNumberLiteral,
 
+    #[error("Too many exclamation marks: the order of a multifactorial can be at most 65535")]
+    FactorialOrderTooLarge,
+
     #[error("Expected dimension exponent")]
     ExpectedDimensionExponent,
 
@@ -1349,6 +1352,13 @@ impl<'a> Parser<'a> {
                 Some(span) => *span = span.extend(&current_span),
             };
             order += 1;
+        }
+        if order > u16::MAX as usize {
+            // The order of a multifactorial is stored in a 16 bit operand of the virtual machine
+            return Err(ParseError::new(
+                ParseErrorKind::FactorialOrderTooLarge,
+                span.unwrap(), // safe because order is != 0 here
+            ));
         }
         if order != 0 {
             expr = Expression::UnaryOperator {
